@@ -73,6 +73,7 @@ _codec_assume = ["protocol-conforming histories only (one submission style, at m
 
 PROPS["C01"] = dict(
     jobs=BOTH,
+    crash_policy="inconclusive",
     rule="one case = one decoder session: (codec, k, r, L, N1, seed, payload) x received subset x arrival order/duplicates x API x finish x callback mode; "
          "all 2^n subsets for the small configurations, sampled around k for the large ones; after every API call the source table is compared byte for byte with the encoded symbols. "
          "non-trivial = at least one source symbol was decoded rather than received; distinct = hash of the full history",
